@@ -8,7 +8,8 @@ DECIDED = ("R1.1/R1.2: in every normal variant of every public install root, the
            "pointer (or to the boolean stub); R1.3: the protection change preceding an entry write covers [dst, dst+len) under kernel "
            "page rounding; R1.4: the trampoline code fits its mapping; R1.5: function/replacement roles at the public API level; "
            "R1.6: no entry write on any diverging path; R1.7: on AArch64 and 32-bit ARM targets the same destination decision with their "
-           "decode tables (entry -> trampoline -> replacement; ARM: literal = replacement, Thumb bit included), detailed by C15 / C16.")
+           "decode tables (entry -> trampoline -> replacement; ARM: literal = replacement, Thumb bit included), detailed by C15 / C16; R1.8: on every install path all trampoline writes precede the entry write (a call that arrives "
+           "as soon as the entry is redirected finds a complete trampoline).")
 NOT_DECIDED = ("atomicity of the entry write against threads already executing the function; that the CPU executes the bytes as the "
                "decode table says")
 
@@ -19,7 +20,7 @@ def roots_and_roles(tm):
     for p in tm.install_roots():
         body = tm.facts.body(p)
         m = tm.machines[(p, None)]
-        vs = tm.variants(p)
+        vs = tm.variants_for_decode(p)
         args = tm.root_args(m, body)
         ptrs = [find_ptr_leaves(a) for a in args]
         func = ptrs[0][0] if ptrs and ptrs[0] else None
@@ -183,4 +184,10 @@ def run(ck, models, tier):
                 except isa.Undecodable as e:
                     ck.ob("R1.1", "%s/entry/undecodable" % rn, tm.target, False, "entry bytes: %s" % e, where(eev))
             ck.floor("R1.1", "%s/normal-variants-with-entry-write" % rn, n_entry, 1, tm.target)
+    # R1.8 the trampoline is complete before the entry branches to it
+    from . import patches as _p
+    for tm in models:
+        if tm.arch != "arm":
+            k = _p.order_obligations(ck, "R1.8", tm)
+            ck.floor("R1.8", "install-paths-with-entry-and-trampoline", k, 6, tm.target)
     ck.floor("R1.5", "x86_64-install-roots-total", n_roots, 6)
